@@ -209,8 +209,9 @@ package enc
 
 // ---- codec table
 //@ func FromCode
-//@   property C08
+//@   property C08, C12
 //@   safe
+//@   pure
 //@   ensures err == nil ==> result != nil          :never_nil_nil
 
 // ---- interface contract of enc.Encoder (what callers may rely on for any codec)
